@@ -29,6 +29,16 @@ def _strip_doc(body):
 
 def _unify(a, b, m: Dict[str, str], rm: Dict[str, str]) -> bool:
     """Are syntax trees a (reference) and b (host) equal under the name bijection m (a-name -> b-name)?"""
+    if isinstance(a, ast.Return) and a.value is not None and isinstance(b, ast.Assign) and len(b.targets) == 1 and isinstance(b.targets[0], ast.Name):
+        # `return E` inside the helper's with / try  ~  `t = E'` at the same place in the host
+        tgt = rm.get("\0ret")
+        if tgt is not None and tgt != b.targets[0].id:
+            return False
+        if not _unify(a.value, b.value, m, rm):
+            return False
+        rm["\0ret"] = b.targets[0].id
+        b._outlined_return = True
+        return True
     if type(a) is not type(b):
         return False
     if isinstance(a, ast.Name):
@@ -105,8 +115,9 @@ def reoutline(repo, inv) -> Dict[str, str]:
             continue
         ret = body[-1].value if isinstance(body[-1], ast.Return) and body[-1].value is not None else None
         stmts = body[:-1] if isinstance(body[-1], ast.Return) else body
-        if any(isinstance(x, ast.Return) for s in stmts for x in ast.walk(s)):
-            continue  # early returns: not a straight run
+        nested_ret = any(isinstance(x, ast.Return) for s in stmts for x in ast.walk(s))
+        if nested_ret and (ret is not None or sum(1 for s in stmts for x in ast.walk(s) if isinstance(x, ast.Return)) != 1):
+            continue  # several exits: not a straight run
         params = [a.arg for a in ref.args.posonlyargs + ref.args.args + ref.args.kwonlyargs]
         is_method = bool(params) and params[0] in ("self", "cls")
         defined = False
@@ -119,11 +130,28 @@ def reoutline(repo, inv) -> Dict[str, str]:
                 continue
             block, i, n, m, target = hit
             # parameters of the helper = what its reference parameters were unified with
+            m.pop("\0ret", None)
             pnames = [m.get(p, p) for p in params]
             if len(set(pnames)) != len(pnames):
                 continue
             run = block[i:i + n]
             new_body = [copy.deepcopy(s) for s in run]
+            ret_target = None
+            if nested_ret:
+                # the single nested `return E` of the helper is an assignment in the host: turn the copy back
+                for s_ in new_body:
+                    for par in ast.walk(s_):
+                        for blk in _blocks(par):
+                            for k_, st_ in enumerate(blk):
+                                if getattr(st_, "_outlined_return", False):
+                                    ret_target = st_.targets[0]
+                                    blk[k_] = ast.copy_location(ast.Return(value=st_.value), st_)
+                for s_ in run:
+                    for x_ in ast.walk(s_):
+                        if getattr(x_, "_outlined_return", False):
+                            x_._outlined_return = False
+                if ret_target is None:
+                    continue
             if ret is not None:
                 new_body.append(ast.Return(value=copy.deepcopy(block[i + n].value)))
             if not new_body:
@@ -140,8 +168,16 @@ def reoutline(repo, inv) -> Dict[str, str]:
                 a.annotation = None
             static = any(isinstance(d, ast.Name) and d.id == "staticmethod" for d in ref.decorator_list)
             args = [ast.Name(id=p, ctx=ast.Load()) for p in (pnames[1:] if is_method else pnames)]
-            if host.cls is not None and (is_method or static):
-                recv = ast.Name(id=pnames[0] if is_method else host.cls.name, ctx=ast.Load())
+            home = repo.try_cls(qual.rsplit(".", 1)[0])
+            if home is not None and (is_method or static):
+                if is_method:
+                    recv = ast.Name(id=pnames[0], ctx=ast.Load())
+                else:
+                    # static helper: address it through its class path, as the reference callers do
+                    parts = qual.split(".")[1:-1]
+                    recv = ast.Name(id=parts[0], ctx=ast.Load())
+                    for p_ in parts[1:]:
+                        recv = ast.Attribute(value=recv, attr=p_, ctx=ast.Load())
                 fn = ast.Attribute(value=recv, attr=ref.name, ctx=ast.Load())
             else:
                 fn = ast.Name(id=ref.name, ctx=ast.Load())
@@ -149,9 +185,11 @@ def reoutline(repo, inv) -> Dict[str, str]:
             if ret is not None:
                 new_stmt = ast.Assign(targets=[block[i + n].targets[0]], value=call) if target == "assign" else ast.Return(value=call)
                 block[i:i + n + 1] = [ast.copy_location(new_stmt, run[0] if run else block[i])]
+            elif nested_ret:
+                block[i:i + n] = [ast.copy_location(ast.Assign(targets=[copy.deepcopy(ret_target)], value=call), run[0])]
             else:
                 block[i:i + n] = [ast.copy_location(ast.Expr(value=call), run[0])]
-            owner = host.cls.node if host.cls is not None and "." in qual.split(".", 1)[1] else host.module.tree
+            owner = home.node if home is not None else host.module.tree
             if not defined:
                 ast.copy_location(fdef, host.node)
                 owner.body.append(fdef)
